@@ -6,6 +6,6 @@ for l in open(sys.argv[1] if len(sys.argv)>1 else '/verif/.work/t.jsonl'):
     if r.get('Leaked'): sig['LEAKED']+=1
     for v in r.get('Viol',[]):
         k='|'.join(v.split('|')[:2]); sig[k]+=1
-        if k not in ex or r['Ops']<ex[k][1]: ex[k]=(r['Idx'],r['Ops'],v[:900])
+        if k not in ex or r['Ops']<ex[k][1]: ex[k]=(r['Idx'],r['Ops'],v[:500].replace('\n',' '))
 print(n, dict(sig))
 for k,v in ex.items(): print(k, v)
